@@ -11,6 +11,7 @@ the original.
 import builtins
 import copy
 import random
+import re
 
 from ginsim import probes, shrink, world
 
@@ -448,22 +449,28 @@ def run(case):
       scopes.append('/'.join(cur))
     pos = 0
     for d in innermost_first:
-      needle = "In call to configurable '%s'" % names[d]
-      at = s.find(needle, pos)
+      # format-agnostic: the configurable's name as a whole word, after the
+      # original text, levels in order
+      m = re.compile(r'(?<![\w.])%s(?![\w])' % re.escape(names[d])).search(
+          s, max(pos, len(s_orig)))
+      at = m.start() if m else -1
       if at < 0:
         v('C17.message_extended', ['names-configurable'],
           '%s at %s depth %d: message does not name configurable %s in order '
           '(innermost first):\n%s' % (label, site, depth, names[d],
                                       probes.scrub(s)[:500]))
         break
-      line = s[at:].split('\n', 1)[0]
-      want_scope = " in scope '%s'" % scopes[d] if scopes[d] else ''
-      if want_scope and not line.endswith(want_scope):
+      line_start = s.rfind('\n', 0, at) + 1
+      line = s[line_start:].split('\n', 1)[0]
+      want_scope = scopes[d]
+      if want_scope and not re.search(
+          r'(?<![\w/])%s(?![\w/])' % re.escape(want_scope),
+          line.split(names[d], 1)[-1]):
         v('C17.message_extended', ['names-scope'],
           '%s at %s depth %d: line %r does not name the active scope %r' %
           (label, site, depth, probes.scrub(line), scopes[d]))
         break
-      if not want_scope and ' in scope ' in line:
+      if not want_scope and re.search(r'\bscope\b', line.split(names[d], 1)[-1]):
         v('C17.message_extended', ['names-scope'],
           '%s at %s depth %d: line %r names a scope although none is active' %
           (label, site, depth, probes.scrub(line)))
